@@ -39,7 +39,7 @@ def run_fuzz_input(binary, data, env, timeout=90):
         return "pass", "", cpu
     if rc == "timeout":
         return "timeout", out[-3000:], cpu
-    return "crash", out[-6000:], cpu
+    return "crash", (out if len(out) < 9000 else out[:5000] + "\n...\n" + out[-3500:]), cpu
 
 
 def signature(report):
